@@ -18,7 +18,7 @@ import (
 
 var c17Paths = []struct{ p, class string }{
 	{"a.txt", "plain"}, {"b.txt", "plain"}, {"sub/c.txt", "subdir"}, {"a b.txt", "blank"}, {"x  y.txt", "double-blank"},
-	{"-d.txt", "leading-dash"}, {"e;f.txt", "semicolon"}, {"g*.txt", "glob"}, {"h$i.txt", "dollar"}, {"k'l.txt", "quote"}, {" lead.txt", "edge-blank"}, {"m&n.txt", "ampersand"},
+	{"-d.txt", "leading-dash"}, {"e;f.txt", "semicolon"}, {"g*.txt", "glob"}, {"h$i.txt", "dollar"}, {"k'l.txt", "quote"}, {" lead.txt", "edge-blank"}, {"m&n.txt", "ampersand"}, {"-", "lone-dash"}, {"-n", "option-like"}, {"--", "double-dash"},
 }
 
 var c17Contents = []struct{ s, class string }{
@@ -40,7 +40,7 @@ type c17Op struct {
 
 func TestC17(t *testing.T) {
 	r, e := start(t, "C17",
-		"random histories (<= 12 operations quick, <= 30 thorough) of write(p,s), write(p,s,false), write(p,s,true) (the flag spelled as a literal, a variable, a comparison or exists(p) where that has the wanted value), read(p) (only where the model says p exists; also two reads in one statement: printed together, compared, concatenated) and exists(p) over 2-4 paths drawn from {plain, sub-directory, blank, double blank, leading dash, ;, *, $, ', leading blank, &} and contents from {neutral, empty, edge blanks, blank runs, quotes, $, $(cmd), backquote, backslash, glob, -n, tab, shell metacharacters, #, embedded newline, !, %}; the whole history is one generated program (a third of the operations wrapped in a construct that runs them once: taken branch, else branch, one-pass loop, switch case, branch inside a loop), values literal or held in variables read from stdin, written plainly or as a call result, a parenthesised expression, a concatenation or a slice element, half the time executed inside a function with paths/contents as parameters; a third of the operations are performed by small helper functions (hwrite, hread, ...) called from the history instead of directly; a sixth of the steps are triples 'observe p (read/exists), a helper FUNCTION writes p, observe p again' in one straight-line block. Oracle: model map[path][]line: file bytes = lines joined by newline + newline, read = lines joined, exists = key present; the sandbox afterwards holds exactly the model's files. Non-trivial = append after overwrite after append on one path, or >= 2 paths with a non-plain path or content; distinct by history.",
+		"random histories (<= 12 operations quick, <= 30 thorough) of write(p,s), write(p,s,false), write(p,s,true) (the flag spelled as a literal, a variable, a comparison or exists(p) where that has the wanted value), read(p) (only where the model says p exists; also two reads in one statement: printed together, compared, concatenated) and exists(p) over 2-4 paths drawn from {plain, sub-directory, blank, double blank, leading dash, the names -, -n and --, ;, *, $, ', leading blank, &} and contents from {neutral, empty, edge blanks, blank runs, quotes, $, $(cmd), backquote, backslash, glob, -n, tab, shell metacharacters, #, embedded newline, !, %}; the whole history is one generated program (a third of the operations wrapped in a construct that runs them once: taken branch, else branch, one-pass loop, switch case, branch inside a loop), values literal or held in variables read from stdin, written plainly or as a call result, a parenthesised expression, a concatenation or a slice element, half the time executed inside a function with paths/contents as parameters; a third of the operations are performed by small helper functions (hwrite, hread, ...) called from the history instead of directly; a sixth of the steps are triples 'observe p (read/exists), a helper FUNCTION writes p, observe p again' in one straight-line block. Oracle: model map[path][]line: file bytes = lines joined by newline + newline, read = lines joined, exists = key present; the sandbox afterwards holds exactly the model's files. Non-trivial = append after overwrite after append on one path, or >= 2 paths with a non-plain path or content; distinct by history.",
 		[]string{"reading a missing file is outside the statement (never generated)", "contents ending in a newline are not generated (read strips trailing newlines by definition)", "values containing $, backquote, double quote or backslash are supplied at run time through input(): as source literals they fall under the listed C08 finding"})
 	defer r.Flush()
 	maxOps := e.Pick(12, 30)
